@@ -1184,7 +1184,7 @@ Section Transfer.
       eapply Htree; [|exact HP]. symmetry. now rewrite tree_of_finish.
     - (* AOfCreate *)
       cbn [cc_flag cc_perm].
-      destruct (cc_open_or_create (cc_tick s) (normalize_path p) flag (Z.land perm chmod_bits)) as [[s1 x]|] eqn:Hoc; [|exact HP].
+      destruct (cc_open_or_create (cc_tick s) (normalize_path p) flag (Z.land perm chmod_bits)) as [k|[s1 x]] eqn:Hoc; [exact HP|].
       pose proof (Hofcreate (cc_tick s) p flag perm s1 x HA Hoc HP) as H. unfold alloc_handle. cbv zeta beta iota.
       eapply Htree; [|exact H]. symmetry. now rewrite tree_of_finish.
   Qed.
